@@ -294,7 +294,18 @@ class C12(Prop):
 
     def gen(self, rng, tier):
         if self._sys is None:
-            self._sys = self.systematic(self.base_programs(), 2)
+            its = [self.systematic([c], 2) for c in self.base_programs()]
+
+            def round_robin():
+                live = list(its)
+                while live:
+                    for it in list(live):
+                        x = next(it, None)
+                        if x is None:
+                            live.remove(it)
+                        else:
+                            yield x
+            self._sys = round_robin()
             self._sys_left = self.budgets[tier] // 2 if tier == 'quick' else 0
         if self._sys_left > 0:
             self._sys_left -= 1
